@@ -32,19 +32,18 @@ Record template := {
 (* ---- substitution of (parenthesis count, subtree) for holes ---- *)
 Section Subst.
 Variable sigma : nat -> nat -> bool -> assoc3 -> nat * sdexpr.
+Definition sub_edge (rec : sdexpr -> sdexpr) (w : nat) (c : sdexpr) : nat * sdexpr :=
+  match c with
+  | DAtom (AHole i req il a) => let (k, x) := sigma i req il a in (w + k, x)
+  | _ => (w, rec c)
+  end.
 Fixpoint dsubst (d : sdexpr) : sdexpr :=
-  let edge (w : nat) (c : sdexpr) : nat * sdexpr :=
-    match c with
-    | DAtom (AHole i req il a) => let (k, x) := sigma i req il a in (w + k, x)
-    | _ => (w, dsubst c)
-    end in
   match d with
   | DAtom a => DAtom a
-  | DBin o wl l wr r => let (wl', l') := edge wl l in let (wr', r') := edge wr r in DBin o wl' l' wr' r'
-  | DUn u w x => let (w', x') := edge w x in DUn u w' x'
-  | DCall f args =>
-      DCall f ((fix go (l : list (nat * sdexpr)) : list (nat * sdexpr) :=
-                  match l with [] => [] | (w, c) :: t => edge w c :: go t end) args)
+  | DBin o wl l wr r =>
+      DBin o (fst (sub_edge dsubst wl l)) (snd (sub_edge dsubst wl l)) (fst (sub_edge dsubst wr r)) (snd (sub_edge dsubst wr r))
+  | DUn u w x => DUn u (fst (sub_edge dsubst w x)) (snd (sub_edge dsubst w x))
+  | DCall f args => DCall f (map (fun p => sub_edge dsubst (fst p) (snd p)) args)
   end.
 End Subst.
 
